@@ -1180,6 +1180,21 @@ def evaluate(t, env, memo=None):
             if not isinstance(vals_[0], str) or any(not isinstance(x, (bytes, bytearray, memoryview, int)) for x in vals_[1:]):
                 raise CannotEval(repr(t)[:120])
             r = getattr(_struct, op.rsplit(".", 1)[1])(*vals_, **kw_)       # (a struct.error propagates: the code would raise it too)
+        elif op in ("itemgetter", "attrgetter", "methodcaller") and t.args:
+            import operator as _operator
+            r = getattr(_operator, op)(*[evaluate(a, env, memo) for a in t.args])
+        elif op == "call:itertools.groupby" and t.args:
+            import itertools as _it
+            seq_ = evaluate(t.args[0], env, memo)
+            key_ = None
+            for a in t.args[1:]:
+                if isinstance(a, Op) and a.op == "kv" and a.args[0] == Const("key"):
+                    key_ = evaluate(a.args[1], env, memo)
+                elif not (isinstance(a, Op) and a.op == "kv"):
+                    key_ = evaluate(a, env, memo)
+            if not isinstance(seq_, (list, tuple)) or not (key_ is None or callable(key_)):
+                raise CannotEval(repr(t)[:120])
+            r = [(k_, list(g_)) for k_, g_ in _it.groupby(seq_, key_)]
         elif op in ("call:frozenset", "call:set", "frozenset", "set") and len(t.args) <= 1:
             v_ = evaluate(t.args[0], env, memo) if t.args else ()
             if not isinstance(v_, (str, bytes, list, tuple, range, frozenset, set)):
